@@ -687,6 +687,8 @@ def sum(x:Tensor, dim:'int | tuple'=None, keepdims:bool=False) -> 'Tensor':
     if not isinstance(x, Tensor):
         raise TypeError(f"Expected x to be a Tensor but got {type(x)}")
     
+    if x.ndim == 0 and dim in (0, -1): dim = None # a 0-d tensor only has its single element to reduce
+    
     if x.device == Device.CPU:
         out_data = cpu_ops.sum_forward(x.data, dim, keepdims)
     else:
@@ -722,6 +724,8 @@ def mean(x:Tensor, dim:'int | tuple'=None, keepdims:bool=False) -> 'Tensor':
     """
     if not isinstance(x, Tensor):
         raise TypeError(f"Expected x to be a Tensor but got {type(x)}")
+    
+    if x.ndim == 0 and dim in (0, -1): dim = None # a 0-d tensor only has its single element to reduce
     
     if x.device == Device.CPU:
         out_data = cpu_ops.mean_forward(x.data, dim, keepdims)
@@ -759,6 +763,8 @@ def max(x:Tensor, dim:int, keepdims=False) -> 'Tensor':
     if not isinstance(x, Tensor):
         raise TypeError(f"Expected x to be a Tensor but got {type(x)}")
     
+    if x.ndim == 0 and dim in (0, -1): dim = None # a 0-d tensor only has its single element to reduce
+    
     if x.device == Device.CPU:
         out_data = cpu_ops.max_forward(x.data, dim, keepdims)
     else:
@@ -794,6 +800,8 @@ def min(x:Tensor, dim:int, keepdims:bool=False) -> 'Tensor':
     """
     if not isinstance(x, Tensor):
         raise TypeError(f"Expected x to be a Tensor but got {type(x)}")
+    
+    if x.ndim == 0 and dim in (0, -1): dim = None # a 0-d tensor only has its single element to reduce
     
     if x.device == Device.CPU:
         out_data = cpu_ops.min_forward(x.data, dim, keepdims)
